@@ -3,8 +3,14 @@
    the patched value back at the path ([set_at]).  The group of decisions sharing a path is flushed
    when the path changes, exactly as in the loop (so split_string_path sees the not-yet-flushed state). *)
 From Coq Require Import List NArith ZArith Bool Lia.
-From NB Require Import Base.Res Base.Json Base.PyStr Diff.DiffFormat Diff.Patch Diff.Codec
-     Merge.SortKey Merge.Decisions.
+From NB Require Import Base.Res.
+From NB Require Import Base.Json.
+From NB Require Import Base.PyStr.
+From NB Require Import Diff.DiffFormat.
+From NB Require Import Diff.Patch.
+From NB Require Import Diff.Codec.
+From NB Require Import Merge.SortKey.
+From NB Require Import Merge.Decisions.
 Import ListNotations.
 
 (* ---------- item access ---------- *)
